@@ -4,7 +4,7 @@
     Only statements; proofs are in coq/proofs/. *)
 From Coq Require Import List NArith Bool.
 From TG.Model Require Import CoreAst Scope BangOps Indexer ScopeSpec.
-From TG.Proofs Require Import ScopeSimWs FieldLookupVisited ScopeBalance ScopeFrame ScopeSim ScopeSimStmt ScopeSimRec PosLog.
+From TG.Proofs Require Import IndexerTotal ScopeSimWs FieldLookupVisited ScopeBalance ScopeFrame ScopeSim ScopeSimStmt ScopeSimRec PosLog.
 Import ListNotations.
 Open Scope N_scope.
 
@@ -276,13 +276,15 @@ Proof. vm_compute. repeat split; reflexivity. Qed.
     pushes the file on its trace, marks it indexed, indexes its statements in the CURRENT scope and pops the file.
     For every workspace whose (expanded) statements are in the fragment [frag_ws] (the predicate the check evaluates)
     and well scoped according to the resolver: the uses the model records, in order, each with the file and range
-    of the declaration it resolves to, are exactly the resolver's list, and no "not found" diagnostic exists. *)
+    of the declaration it resolves to, are exactly the resolver's list, and no "not found" diagnostic exists.
+    (No hypothesis about the model's panic / fuel flag: group bridge's IndexerTotal.index_ws_total shows that
+    [index_ws] never sets it.) *)
 Theorem C05_resolution_workspace_partial : forall w,
-    frag_ws w = true -> well_scoped w = true -> s_bad (index_ws w) = false ->
+    frag_ws w = true -> well_scoped w = true ->
     rev (s_uses (index_ws w)) = spec_uses w /\ nf (index_ws w) = [].
-Proof. exact workspace_resolution. Qed.
+Proof. intros w Hf HR. apply workspace_resolution; auto. apply index_ws_total. Qed.
 Check C05_resolution_workspace_partial : forall w,
-    frag_ws w = true -> well_scoped w = true -> s_bad (index_ws w) = false ->
+    frag_ws w = true -> well_scoped w = true ->
     rev (s_uses (index_ws w)) = spec_uses w /\ nf (index_ws w) = [].
 Print Assumptions C05_resolution_workspace_partial.
 
@@ -295,7 +297,7 @@ Print Assumptions C05_resolution_workspace_partial.
 Definition ex_ws : workspace :=
   (mkWs [[(SInclude (mkR 0 0 15) (Some 1)); (SInclude (mkR 0 15 30) (Some 2)); (SInclude (mkR 0 30 45) (Some 1)); (SDef (Some (Val (mkR 0 49 51) [(Inner (SId (mkId (mkR 0 49 50) [109])) [])])) (mkR 0 45 84) [(CRef (mkId (mkR 0 53 54) [65]) [] (mkR 0 53 55))] [(IField TyInt (mkId (mkR 0 61 62) [113]) (Some (Val (mkR 0 65 66) [(Inner (SId (mkId (mkR 0 65 66) [120])) [])]))); (IDefvar (mkId (mkR 0 75 76) [118]) (Val (mkR 0 79 80) [(Inner (SId (mkId (mkR 0 79 80) [98])) [])]))])]; [(SClass (mkId (mkR 1 6 7) [65]) None [] [(IField TyInt (mkId (mkR 1 14 15) [120]) (Some (Val (mkR 1 18 19) [(Inner SInt [])])))])]; [(SInclude (mkR 2 0 15) (Some 1)); (SDef (Some (Val (mkR 2 19 21) [(Inner (SId (mkId (mkR 2 19 20) [98])) [])])) (mkR 2 15 26) [(CRef (mkId (mkR 2 23 24) [65]) [] (mkR 2 23 24))] [])]] []).
 Example C05_resolution_workspace_nonvacuous :
-  frag_ws ex_ws = true /\ well_scoped ex_ws = true /\ s_bad (index_ws ex_ws) = false /\
+  frag_ws ex_ws = true /\ well_scoped ex_ws = true /\
   spec_uses ex_ws = [(mkR 2 23 24, Some (mkR 1 6 7)); (mkR 0 53 54, Some (mkR 1 6 7));
                      (mkR 0 65 66, Some (mkR 1 14 15)); (mkR 0 79 80, Some (mkR 2 19 20))] /\
   rev (s_uses (index_ws ex_ws)) = spec_uses ex_ws.
